@@ -52,7 +52,8 @@ RULE = ('One offender transport sends generated sequences of hostile frames '
         'Non-trivial: the sequence contains a frame that decodes to an '
         'allowed packet type on a namespace shared with a bystander.'
         ' What engine.io hands over after JSON-sniffing a text message is judged too (anything but str / bytes / a plain int is not a packet); a third of the msgpack histories start with a CONNECT for the namespace "*" and events there that name a bystander.'
-        ' A placeholder in a binary packet that announces no attachments makes the frame undecodable.')
+        ' A placeholder in a binary packet that announces no attachments makes the frame undecodable.'
+        ' Under msgpack a packet type that is not an integer or a namespace that is not a string (or nil) makes the frame undecodable.')
 ASSUMPTIONS = [
     '"cannot be decoded" means the implementation\'s decoder raised, or the '
     'payload of an EVENT / BINARY_EVENT is not a non-empty array',
